@@ -18,7 +18,7 @@ for p in selftest/$id/*.patch /verif/seeded/*/patch.diff; do
       pk=$(git -C "$d/r" diff --name-only | xargs -n1 dirname | sort -u | sed 's|^|./|')
       (cd "$d/r" && go test -vet=off -count=1 -timeout 120s $pk >/dev/null 2>&1) && t="tests-pass" || t="TESTS-FAIL"
     fi
-    out=$(VERIF_DIR=/verif bin/govc check -property "$id" -tier quick -repo "$d/r" -no-evidence 2>&1); rc=$?
+    out=$(VERIF_DIR=/verif bin/govc check -property "$id" -tier quick -repo "$d/r" -no-evidence -failfast 2>&1); rc=$?
     n=$(echo "$out" | grep -c '^VIOLATION')
     if [ $rc -eq 1 ] && [ $n -gt 0 ]; then echo "DETECTED $name ($n) $t: $(echo "$out" | grep '^FAILED' | head -3 | cut -c8-110 | tr '\n' ';')"; else echo "MISSED   $name rc=$rc $t"; fail=1; fi
   fi
